@@ -8,11 +8,13 @@ package corr
 // with the frame as replay. The Lean side (`c12_compose_*`) proves the same for the driver models.
 
 import (
+	"bytes"
 	"encoding/binary"
 	"fmt"
-	"net/netip"
 	"strings"
 	"testing"
+
+	"github.com/DataDog/datadog-traceroute/packets"
 
 	"verifharness/hx"
 )
@@ -74,6 +76,25 @@ func c12Compose(t *testing.T, rep *hx.Report, rng *hx.RNG, kern *c12Kernel, perV
 					rep.Hit("compose:" + v + ":matcher-ignores")
 					continue
 				}
+				// the same reply in other link-layer framings: what the REAL Source hands to the matcher
+				// (stripEthernetHeader) must pass the filter whenever it is the packet the matcher accepted
+				for _, alt := range c12AltFramings(st.Op.Pkt, mc.Cfg.v6()) {
+					up, serr := packets.VerifStripEthernetHeader(alt.frame)
+					delivered := serr == nil && len(up) > 0
+					rep.Hit("compose:framing:" + alt.name + ":" + map[bool]string{true: "handed-to-matcher", false: "skipped"}[delivered])
+					if !delivered || !bytes.Equal(up, st.Op.Pkt) {
+						continue // not handed up, or not the packet the matcher accepted
+					}
+					n, err := p.vm.Run(alt.frame)
+					if err == nil && n > 0 {
+						continue
+					}
+					rep.Violate(hx.Violation{Kind: "spec",
+						What: fmt.Sprintf("the %s filter drops a %s frame that the Source hands to the %s matcher as a packet it turns into a hop (%s): with filtering enabled this reply is lost", flt.Name, alt.name, v, st.Impl),
+						Sig:  map[string]string{"defect": "matchable-frame-filtered", "framing": alt.name, "stream": "compose"},
+						Replay: map[string]any{"variant": v, "config": mc.Cfg.oraclePrefix(), "filter": flt.token(), "frame": hx2(alt.frame), "form": form, "framing": alt.name,
+							"matcher_outcome": st.Impl, "filter_verdict": "drop"}})
+				}
 				n, err := p.vm.Run(frame)
 				pass := err == nil && n > 0
 				if kern != nil {
@@ -101,5 +122,31 @@ func c12Compose(t *testing.T, rep *hx.Report, rng *hx.RNG, kern *c12Kernel, perV
 			}
 		}
 	}
-	_ = netip.Addr{}
+}
+
+type c12Framing struct {
+	name  string
+	frame []byte
+}
+
+// c12AltFramings wraps an IP packet in link-layer framings other than plain Ethernet II.
+func c12AltFramings(pkt []byte, v6 bool) []c12Framing {
+	et := []byte{0x08, 0x00}
+	if v6 {
+		et = []byte{0x86, 0xdd}
+	}
+	mac := []byte{0x02, 0, 0, 0, 0, 1, 0x02, 0, 0, 0, 0, 2}
+	cat := func(parts ...[]byte) []byte {
+		var out []byte
+		for _, p := range parts {
+			out = append(out, p...)
+		}
+		return out
+	}
+	return []c12Framing{
+		{"vlan-802.1q", cat(mac, []byte{0x81, 0x00, 0x00, 0x64}, et, pkt)},
+		{"qinq-802.1ad", cat(mac, []byte{0x88, 0xa8, 0x00, 0x0a, 0x81, 0x00, 0x00, 0x64}, et, pkt)},
+		{"llc-snap", cat(mac, []byte{0, byte(8 + len(pkt)), 0xaa, 0xaa, 0x03, 0, 0, 0}, et, pkt)},
+		{"pppoe-session", cat(mac, []byte{0x88, 0x64, 0x11, 0, 0, 1, 0, byte(2 + len(pkt)), 0, map[bool]byte{false: 0x21, true: 0x57}[v6]}, pkt)},
+	}
 }
